@@ -4,6 +4,7 @@
 #define XXH_STATIC_LINKING_ONLY
 #define XXH_NAMESPACE ZSTD_
 #include "xxhash.h"
+#include "zstd_verif_hooks.h"
 unsigned long long nondet_xxh_u64(void);
 /* statePtr->total_len doubles as the ghost byte counter ("bytes fed since the last reset") */
 
@@ -24,7 +25,8 @@ XXH_errorcode XXH64_update(XXH_NOESCAPE XXH64_state_t* statePtr, XXH_NOESCAPE co
 XXH64_hash_t XXH64_digest(XXH_NOESCAPE const XXH64_state_t* statePtr)
 {
     __CPROVER_assert(__CPROVER_r_ok(statePtr, sizeof(*statePtr)), "XXH64_digest: state readable");
-    return nondet_xxh_u64();
+    zstd_verif_ghost.xxh_last_digest = nondet_xxh_u64();
+    return zstd_verif_ghost.xxh_last_digest;
 }
 XXH64_hash_t XXH64(XXH_NOESCAPE const void* input, size_t length, XXH64_hash_t seed)
 {
